@@ -22,6 +22,7 @@ EXPLANATION = (
     ' (R2, extended) an assignment kernel that writes the sink through fewer index positions than the assignment form has (a linear offset) is reported: the single bounds check against len() lets an out-of-range row or column address another element.'
     " (R5) operator families: for every index form the Add/Sub/Mul/Div (and plain) assign kernels have the same addressing normal form modulo the operator, so one member reading its source or sink differently from its siblings is reported; (R6) the assignment compilers hand (sink, index..., source) to the kernels in the role order the kernels' struct fields declare."
     ' (R4, chained dispatchers) in every `kind1-arms(arg).or_else(kind2-arms(arg))...` assignment dispatcher each numeric kind is tried by as many kernel families as the other kinds.'
+    ' (R7) index operands keep their position in subscript_ref() and the four op-assign dispatchers: the j-th index value is evaluated from the j-th subscript.'
 )
 
 OPS = {"Add": "+", "Sub": "-", "Mul": "*", "Div": "/"}
@@ -376,3 +377,5 @@ def run(F, rep, tier):
     rep.analysed = {"assign_compilers": sorted(nfc_forms), "kernels": n_k, "op_assign": {k: sorted(map(str, v)) for k, v in op_fns.items()}}
     from rules.loopshape import assign_compiler_operand_roles
     assign_compiler_operand_roles(F, rep, "C04-R6")
+    from rules.loopshape import subscript_operand_positions
+    subscript_operand_positions(F, rep, "C04-R7", r"^(subscript_ref|add_assign|sub_assign|mul_assign|div_assign)$", 25)
